@@ -144,23 +144,62 @@ fn opt_tok(a: &Option<f64>) -> String {
   }
 }
 
-/// the numeric fields of an `SPDCConfig` in its own units
-pub fn config_tokens(c: &SPDCConfig) -> String {
+/// Token of a ROUNDED configuration field next to the unrounded physical value it was rounded from.
+/// Normally the rounded value itself (compared exactly / to a few ulp).  When the unrounded value
+/// sits on a rounding tie (x.xxxx5) to within 1e-11 relative, a last-ulp difference between the
+/// implementation's and the model's unrounded value legitimately flips the 4th decimal: the token then
+/// names the tie point (`tie:<2k+1>` in units of half a 4th decimal), so both sides must agree on the
+/// unrounded value to ~1e-11 and either neighbour is an acceptable rounding.  A rounded value that is
+/// neither neighbour is printed as it is (and will disagree).
+pub fn rtok(rounded: f64, unrounded: f64, wraps: bool) -> String {
+  let y = unrounded * 1e4;
+  let f = y.floor();
+  let d = (y - f - 0.5).abs();
+  if d <= 1e-11 * y.abs().max(1.0) {
+    let r = (rounded * 1e4).round();
+    if r == f || r == f + 1.0 || (wraps && f + 1.0 == 3_600_000.0 && r == 0.0) {
+      return format!("tie:{}", fl(2.0 * f + 1.0));
+    }
+  }
+  fl(rounded)
+}
+
+/// the numeric fields of an `SPDCConfig` in its own units; `s` = the setup it is the configuration of
+pub fn config_tokens(c: &SPDCConfig, s: &SPDC) -> String {
+  let deg = DEG.value_unsafe;
+  let cs = &s.crystal_setup;
+  let auto_r = |a: &AutoCalcParam<f64>, u: f64| match a {
+    AutoCalcParam::Auto(_) => "A".to_string(),
+    AutoCalcParam::Param(x) => rtok(*x, u, false),
+  };
+  let opt_r = |a: &Option<f64>, u: f64| match a {
+    None => "-".to_string(),
+    Some(x) => rtok(*x, u, false),
+  };
   let idler = match &c.idler {
     AutoCalcParam::Auto(_) => "A".to_string(),
     AutoCalcParam::Param(i) => format!(
       "I {} {} {} {} {} {}",
-      fl(i.wavelength_nm),
-      fl(i.phi_deg),
-      opt_tok(&i.theta_deg),
+      rtok(i.wavelength_nm, s.idler.vacuum_wavelength().value_unsafe / 1e-9, false),
+      rtok(i.phi_deg, s.idler.phi().value_unsafe / deg, true),
+      opt_r(&i.theta_deg, s.idler.theta_internal().value_unsafe / deg),
       opt_tok(&i.theta_external_deg),
-      fl(i.waist_um),
-      auto_tok(&i.waist_position_um)
+      rtok(i.waist_um, s.idler.waist().x.value_unsafe / 1e-6, false),
+      auto_r(&i.waist_position_um, s.idler_waist_position.value_unsafe / 1e-6)
     ),
   };
-  let poling = match &c.periodic_poling {
-    PeriodicPolingConfig::Off => "O".to_string(),
-    PeriodicPolingConfig::Config { poling_period_um, apodization } => {
+  let poling = match (&c.periodic_poling, &s.pp) {
+    (PeriodicPolingConfig::Off, _) => "O".to_string(),
+    (PeriodicPolingConfig::Config { poling_period_um, apodization }, PeriodicPoling::On { period, apodization: sa, .. }) => {
+      let ap = match (apodization, sa) {
+        (ApodizationConfig::Gaussian { fwhm_um }, Apodization::Gaussian { fwhm }) => {
+          format!("gaussian {}", rtok(*fwhm_um, fwhm.value_unsafe / 1e-6, false))
+        }
+        _ => apod_cfg_tokens(apodization),
+      };
+      format!("P {} {}", auto_r(poling_period_um, period.value_unsafe / 1e-6), ap)
+    }
+    (PeriodicPolingConfig::Config { poling_period_um, apodization }, _) => {
       format!("P {} {}", auto_tok(poling_period_um), apod_cfg_tokens(apodization))
     }
   };
@@ -168,23 +207,23 @@ pub fn config_tokens(c: &SPDCConfig) -> String {
     "{} {} {} {} {} {} {} {} {} {} {} {} {} {} {} {} {} {} {} {} {}",
     crystal_index(&c.crystal.kind),
     pm_index(c.crystal.pm_type),
-    fl(c.crystal.phi_deg),
-    auto_tok(&c.crystal.theta_deg),
-    fl(c.crystal.length_um),
-    fl(c.crystal.temperature_c),
+    rtok(c.crystal.phi_deg, cs.phi.value_unsafe / deg, false),
+    auto_r(&c.crystal.theta_deg, cs.theta.value_unsafe / deg),
+    rtok(c.crystal.length_um, cs.length.value_unsafe / 1e-6, false),
+    rtok(c.crystal.temperature_c, cs.temperature.value_unsafe - 273.15, false),
     c.crystal.counter_propagation as u8,
-    fl(c.pump.wavelength_nm),
-    fl(c.pump.waist_um),
-    fl(c.pump.bandwidth_nm),
-    fl(c.pump.average_power_mw),
+    rtok(c.pump.wavelength_nm, s.pump.vacuum_wavelength().value_unsafe / 1e-9, false),
+    rtok(c.pump.waist_um, s.pump.waist().x.value_unsafe / 1e-6, false),
+    rtok(c.pump.bandwidth_nm, s.pump_bandwidth.value_unsafe / 1e-9, false),
+    rtok(c.pump.average_power_mw, s.pump_average_power.value_unsafe / 1.0, false),
     opt_tok(&c.pump.spectrum_threshold),
-    fl(c.signal.wavelength_nm),
-    fl(c.signal.phi_deg),
-    opt_tok(&c.signal.theta_deg),
+    rtok(c.signal.wavelength_nm, s.signal.vacuum_wavelength().value_unsafe / 1e-9, false),
+    rtok(c.signal.phi_deg, s.signal.phi().value_unsafe / deg, true),
+    opt_r(&c.signal.theta_deg, s.signal.theta_internal().value_unsafe / deg),
     opt_tok(&c.signal.theta_external_deg),
-    fl(c.signal.waist_um),
-    auto_tok(&c.signal.waist_position_um),
-    fl(c.deff_pm_per_volt),
+    rtok(c.signal.waist_um, s.signal.waist().x.value_unsafe / 1e-6, false),
+    auto_r(&c.signal.waist_position_um, s.signal_waist_position.value_unsafe / 1e-6),
+    rtok(c.deff_pm_per_volt, s.deff.value_unsafe / (1e-12 / 1000.0), false),
     idler,
     poling
   )
@@ -1217,7 +1256,7 @@ fn k_try(ctx: &mut Ctx, d: &Desc, run: &Run) {
 
 fn k_as_config(ctx: &mut Ctx, s: &SPDC) {
   if let Some(c) = guard(|| s.clone().as_config()) {
-    ctx.k("as_config", &setup_tokens(s), &config_tokens(&c));
+    ctx.k("as_config", &setup_tokens(s), &config_tokens(&c, s));
   } else {
     ctx.k("as_config", &setup_tokens(s), "PANIC");
   }
@@ -1502,6 +1541,10 @@ fn c17_case(ctx: &mut Ctx, d: &Desc, tag: &str, spectra: bool) {
     Some(Err(_)) => ctx.s("C17.no_panic", same, "construct/err", &det),
     Some(Ok(s)) => {
       ctx.s("C17.no_panic", same, "construct/ok", &det);
+      // the constructed signal or (derived) idler has no external angle: it cannot leave the crystal
+      let no_exit = |b: &Beam| !guard(|| b.theta_external(&s.crystal_setup).value_unsafe).map(|x| x.is_finite()).unwrap_or(false);
+      let unphys = unphys || no_exit(&s.signal) || no_exit(&s.idler);
+      let cls = |base: &str| if unphys { format!("{}/beam-angle-unphysical", base) } else { base.to_string() };
       if in_window(d, true) {
         match guard(|| setup_finite(s)) {
           Some(Ok(())) => ctx.s("C17.finite", true, "setup/finite", &det),
@@ -1599,6 +1642,13 @@ fn debug_json(path: &str) {
         Ok(b) => println!("json-roundtrip-equal: {} back={}", b == c1, serde_json::to_string(&b).unwrap()),
         Err(e) => println!("json-roundtrip-err: {}", e),
       }
+      println!(
+        "external angles (deg): signal {:?} idler {:?}; internal: signal {:?} idler {:?}",
+        guard(|| s.signal.theta_external(&s.crystal_setup).value_unsafe / DEG.value_unsafe),
+        guard(|| s.idler.theta_external(&s.crystal_setup).value_unsafe / DEG.value_unsafe),
+        s.signal.theta_internal().value_unsafe / DEG.value_unsafe,
+        s.idler.theta_internal().value_unsafe / DEG.value_unsafe
+      );
       println!("finite: {:?}", guard(|| setup_finite(s)));
       println!("spectra: {:?}", guard(|| spectra_finite(s)));
     }
